@@ -162,6 +162,19 @@ CLAIMED = {
              "dispatch path are compared with it.",
         note="checksum strength against multi-byte corruption is outside the property (single-byte alterations)",
         design="5/C16"),
+    "C17": dict(
+        technique="implementation-shaped TLA+ model SecsILine (two stations, chunked FIFOs, corruption) checked by TLC for safety and "
+                  "liveness + two real SecsIProtocol stations over an in-memory line under a deterministic scheduler; write order, "
+                  "send result and deliveries validated by TLC against reference blocks (SecsILineJudge over SecsIBlock)",
+        text="TLC explores every chunking and corruption moment in the code-shaped line model (handshake order, success => "
+             "delivered, NAK => not delivered, termination; the corrupted-length-byte variant is kept as witness of the known "
+             "non-termination). Real host/equipment stations exchange messages of 0/1/244/245/600 bytes in both directions with "
+             "whole-block, single-byte and random chunking and one altered byte at every position of short blocks / sampled "
+             "positions of long ones; TLC validates the recorded write sequence against the E4 reference blocks, the send result "
+             "and what was delivered.",
+        note="contention (both sides sending) and T1-T4 / retry are outside the property's premise and absent from the code; after a "
+             "framing error (altered length byte) only failure and non-delivery are required",
+        design="5/C17"),
 }
 
 NOT_YET = "check not built yet in this round (specification and harness in progress; see DESIGN.md section 9)"
